@@ -31,11 +31,19 @@ type Parser struct {
 	Trace     func(on bool)
 	ErrAcc    func() (int, int)
 	SetHooks  func(next func(string, int) (int, int), rec func(int))
+	Push, Pop func() // global form only, nil when the generated parser offers no PushContex/PopContex
 }
 
 var registry = map[string]*Parser{}
 
 func Register(p *Parser) { registry[p.Name] = p }
+
+// SetNest registers the save/restore pair of a global-form parser.
+func SetNest(name string, push, pop func()) {
+	if p := registry[name]; p != nil {
+		p.Push, p.Pop = push, pop
+	}
+}
 
 // ---------------------------------------------------------------- jobs
 
@@ -52,6 +60,15 @@ type Feed struct {
 type Op struct {
 	Op   string `json:"op"` // "init" | "parse" | "new"
 	Feed *Feed  `json:"feed,omitempty"`
+	Nest *Nest  `json:"nest,omitempty"` // parse (global form, history jobs): re-enter the parser from an action
+}
+
+// Nest: when the enclosing parse has run its At-th action (0-based), the action saves the parser state with
+// PushContex, re-initialises, parses Feed to the end (which may itself nest), and restores with PopContex.
+type Nest struct {
+	At    int   `json:"at"`
+	Feed  *Feed `json:"feed"`
+	Inner *Nest `json:"inner,omitempty"`
 }
 
 type Job struct {
@@ -86,6 +103,10 @@ type ParseResult struct {
 	Trace   string      `json:"trace,omitempty"`
 	// TraceCapped: the trace was longer than 6 MB and was not kept
 	TraceCapped bool `json:"trace_capped,omitempty"`
+	// Inner: parses that ran nested inside this one (in order of completion); NestSkipped: a nested parse was planned but
+	// the parser offers no PushContex/PopContex
+	Inner       []ParseResult `json:"inner,omitempty"`
+	NestSkipped bool          `json:"nest_skipped,omitempty"`
 }
 
 type JobResult struct {
@@ -100,6 +121,8 @@ type JobResult struct {
 	Schedule  []int           `json:"schedule,omitempty"` // interleave: context id per step
 	Matrix    [][]int         `json:"matrix,omitempty"`
 	Trans     []int           `json:"trans,omitempty"`
+	// TransMissing (TypeScript): the generated file has no function called translate (a private helper)
+	TransMissing bool `json:"trans_missing,omitempty"`
 	Consts    map[string]int  `json:"consts,omitempty"`
 	ConstsErr string          `json:"consts_err,omitempty"` // TypeScript: reading the token constants threw
 	Err       string          `json:"err,omitempty"`
@@ -121,6 +144,10 @@ type env struct {
 	steps   int
 	budget  int
 	yield   func(kind int) // nil when not interleaving
+	parser  *Parser
+	nest    *Nest // pending nested parse of this parse
+	inner   []ParseResult
+	skipped bool
 }
 
 var cur *env // the environment of the running parse (exactly one goroutine runs at a time)
@@ -197,6 +224,29 @@ func hookRec(r int) {
 	if e.yield != nil {
 		e.yield(1)
 	}
+	if n := e.nest; n != nil && len(e.recs)-1 == n.At {
+		e.nest = nil
+		runNested(e, n)
+	}
+}
+
+// runNested re-enters the parser from inside an action of the parse e, the way a user of the global form does it:
+// PushContex(); ParserInit(); Parser(sub); PopContex().
+func runNested(e *env, n *Nest) {
+	p := e.parser
+	if p == nil || p.Push == nil || p.Pop == nil {
+		e.skipped = true
+		return
+	}
+	p.Push()
+	p.Init(nil)
+	ie := &env{feed: n.Feed, budget: e.budget, parser: p, nest: n.Inner}
+	cur = ie
+	pr := runParse(p, nil, ie)
+	cur = e
+	p.Pop()
+	beginParse() // the enclosing parse is the running one again (watchdog baseline)
+	e.inner = append(e.inner, pr)
 }
 
 func defaultBudget(f *Feed) int { return 10000 + 200*len(f.Toks) }
@@ -214,6 +264,7 @@ func runParse(p *Parser, c interface{}, e *env) (res ParseResult) {
 		res.Fetched = e.fetched
 		res.Steps = e.steps
 		res.InHash = fmt.Sprintf("%x", e.inHash)
+		res.Inner, res.NestSkipped = e.inner, e.skipped
 		if x := recover(); x != nil {
 			switch v := x.(type) {
 			case budgetPanic:
@@ -363,7 +414,15 @@ func runJob(j *Job) *JobResult {
 		}
 		for i := range j.Feeds {
 			f := &j.Feeds[i]
-			c := fresh(p)
+			var c interface{}
+			if tmp != nil && i%2 == 1 {
+				// the switch is a variable the user may set at any time before a parse: here after the context exists
+				p.Trace(false)
+				c = fresh(p)
+				p.Trace(true)
+			} else {
+				c = fresh(p)
+			}
 			e := &env{feed: f, budget: budgetOf(f)}
 			cur = e
 			pr := runParse(p, c, e)
@@ -400,7 +459,10 @@ func runJob(j *Job) *JobResult {
 			case "new":
 				c = fresh(p)
 			case "parse":
-				e := &env{feed: op.Feed, budget: budgetOf(op.Feed)}
+				e := &env{feed: op.Feed, budget: budgetOf(op.Feed), parser: p}
+				if !p.Object {
+					e.nest = op.Nest
+				}
 				cur = e
 				r.Parses = append(r.Parses, runParse(p, c, e))
 			}
